@@ -31,6 +31,35 @@ def perturbed_points(names, rnd, n):
     return pts
 
 
+def illegal_probes(rep):
+    """objects that must not be constructible: if one is accepted all the same, every route on it must still end in a number or
+    in one of the library's own errors (no TLC model exists for ill-formed objects; judged by the plain rule of C17)"""
+    S = J.sm()
+    x = S.Variable("x")
+    probes = {"Logarithm(x, base=0)": lambda: S.Logarithm(x, base=0), "Logarithm(x, base=1)": lambda: S.Logarithm(x, base=1),
+              "Logarithm(x, base=-2)": lambda: S.Logarithm(x, base=-2), "Exponential(x, base=0)": lambda: S.Exponential(x, base=0),
+              "Exponential(x, base=-1)": lambda: S.Exponential(x, base=-1), "NthRoot(x, 0)": lambda: S.NthRoot(x, 0), "NthPower(x, 0)": lambda: S.NthPower(x, 0),
+              "NthPower(x, -2.0)": lambda: S.NthPower(x, -2.0), "NthRoot(x, -1)": lambda: S.NthRoot(x, -1), "NthPower(x, 2.5)": lambda: S.NthPower(x, 2.5)}
+    built = 0
+    for name, mk in probes.items():
+        try:
+            o = mk()
+        except Exception:
+            continue
+        built += 1
+        for wrap in (lambda e: e, lambda e: S.Add(e, S.Constant(1)), lambda e: S.Negation(e)):
+            e = wrap(o)
+            for val in (2, 0.5, -1, 0):
+                pt = S.Point(x=val)
+                for route, fn in (("at", lambda: e.at(pt)), ("Partial.at", lambda: S.Partial(e, "x").at(pt)), ("Partial.at(other variable)", lambda: S.Partial(e, "zz").at(pt)),
+                                  ("LocatedDifferential", lambda: S.LocatedDifferential(e, pt).component("x")), ("early Partial.at", lambda: S.Partial(e, x, compute_early=True).at(pt)),
+                                  ("as_expression", lambda: S.Partial(e, x).as_expression() and 0)):
+                    out = J.outcome_of(fn)
+                    if out["k"] in ("PyError", "bad"):
+                        rep.violation("C17.foreign_" + out["t"], {"expr": name, "note": "this object should have been rejected at construction", "route": route, "x": val, "outcome": out})
+    return {"probes": len(probes), "unexpectedly_constructible": built}
+
+
 def names_cases(add):
     """every legal variable name is a legal coordinate name (Point(**{...}), bare number, inside larger trees)"""
     for nm in ["self", "é", "1x", "class", "_", "whatever", "x1", "Δt", "None", "cls", "kwargs", "point"]:
@@ -299,6 +328,16 @@ def run(pid, tier, seed, src_note=None):
         n_points += dcov["evaluations"]
         nontrivial |= {("diff", k) for k in range(dcov["distinct_nontrivial"])}
         len_rows_extra = dcov["traces_validated_against_impl"]
+    elif pid == "C17" and REPLAY is None:
+        # C17 speaks about evaluation, EVERY derivative query and as_expression(): the other engines run with their C17 clauses
+        import eng_diff, eng_sym
+        dcov = eng_diff.collect(rep, "C17", tier, seed)
+        scov = eng_sym.collect(rep, "C17", tier, seed)
+        extra = {"derivative_routes": {k: v for k, v in dcov.items() if k in ("queries", "cases", "ok", "fl", "drift")},
+                 "as_expression": {k: v for k, v in scov.items() if k in ("expressions", "pairs", "point_checks", "second_order_checks")},
+                 "illegal_parameter_probes": illegal_probes(rep)}
+        n_points += dcov["evaluations"] + scov["evaluations"]
+        len_rows_extra = dcov["traces_validated_against_impl"] + scov["traces_validated_against_impl"]
     else:
         len_rows_extra = 0
     return rep.finish({"evaluations": n_points, "distinct_nontrivial": len(nontrivial), **extra,
